@@ -64,7 +64,7 @@ def run_strategy(d, dfs, vs, collect):
     d2["options"] = o
     cls = dspec.build_decl(d2)
     data = codec.decode(vs)
-    return oracle.outcome(cls.__from__, data)
+    return oracle.outcome(dspec.from_data(cls), data)
 
 
 def run_case(case):
